@@ -17,7 +17,9 @@ PROP = {'level': 'translation_validation',
          'first/middle/last position, unsupported names (std methods and, thorough, two misspellings of each '
          'supported name), consumers inside adapter-only macros; parser_method! — 6 methods x {non-literal '
          'pattern kinds (const, variable, call, byte string, char, int, concat! of a const, `_` in an '
-         'alternation) x position, missing default (last branch with comma / block / neither), branches '
+         'alternation; a const path, a non-concat/stringify macro call) x position — incl. every position '
+         'of a `|` group that also holds an empty literal (`""`, `r""`, `concat!()`, `concat!("", "")`), in the '
+         'first and in a later branch —, missing default (last branch with comma / block / neither), branches '
          'after the default}; destructure! — braced struct, tuple struct, tuple, array x path / '
          'field-pattern / module path / type form / generic / Self x type-annotated or not x const fn / fn x '
          '{Drop impl, Drop field (control), &, &mut, too few, too many, `..` at start/end, array rest '
